@@ -1,5 +1,5 @@
 // Family `gen`: differential validation of the source-to-Lean translators translate/levels_to_lean.py,
-// translate/hashstream_to_lean.py and translate/counterarray_to_lean.py.  The REAL inline functions of
+// translate/hashstream_to_lean.py, translate/counterarray_to_lean.py and translate/nodeheaders_to_lean.py.  The REAL inline functions of
 // forest_levels.h / defines.h / hash_stream.h / arrays.h (as compiled into this harness from /repo's current
 // headers) and the real counter_array of the library (arrays.cc) are called on many inputs; the acceptor
 // lean/MeddlyModel/Fam/GenAccept.lean evaluates the GENERATED Lean functions on the same inputs.
@@ -18,10 +18,21 @@
 //   gc <op> <args> -> <result> <entry_bits>      op: expand n | shrink n | get i | swap i j | inc i | dec i |
 //                                               izbi i | ipad i | rep n inc|dec|izbi|ipad i (-> sum of the n results)
 //   gc watched -> <e|s>:<old>:<new> ...         the calls received by the watcher so far (`-` if none)
+//   nh forest <0|1>               a fresh MT forest of a real domain (1: node_headers::pessimistic is set)
+//   nh adopt <h> <lvl> <in> <cc>  after createReducedNode (not translated): the observed header of every handle it changed
+//   nh kids <h> <k1> .. <kn>      the children of a NEW node h (terminals <= 0)
+//   nh link <h> -> <ret> <A|D|F> <in> <cc>      forest::linkNode(h) (-> node_headers::linkNode): returned handle and the
+//   nh unlink|cache|uncache <h> -> <A|D|F> <in> <cc>      header of h after the call: A isActiveNode, D deleted with
+//                                               cache count > 0, F deleted with cache count 0; in / cc =
+//                                               getNodeInCount / verifCacheCount
+//   nh also <h> -> <A|D|F> <in> <cc>            every OTHER handle whose header changed during the call (deletion cascade)
+//   nh end -> <n>                               number of `also` records of the call
 // Cases: 0 unary level functions, 1..5 one binary level function each (all pairs of [-40,40] and large levels),
 //        6 rot / mix / final_mix, 7.. random hash streams (200 per case), then 24 (thorough 80) counter_array
 //        histories: in-contract call sequences that push single counters across 255/256 and 65535/65536 in both
-//        directions, interleaved with expand / shrink (with and without narrowing 16->8, 32->16, 32->8).
+//        directions, interleaved with expand / shrink (with and without narrowing 16->8, 32->16, 32->8), then 16 (thorough
+//        60) node_headers histories: random in-contract link / unlink / cache / uncache calls on the REAL nodes of a real
+//        forest (pessimistic and optimistic / never-delete policies alternate), nodes built in between by createReducedNode.
 #include "common.h"
 #include "forest_levels.h"
 #include "hash_stream.h"
@@ -280,10 +291,182 @@ void counterHistory(Rng& r, bool thorough) {
     d.watched();
 }
 
+
+// ===================================================================== node_headers histories
+// A real MT forest; the harness keeps a ledger of the references (`own`) and cache marks (`marks`) it holds and never
+// leaves the API contract.  After every call the header of EVERY handle is read back from the library.
+struct NhObs {
+    char cls = 'F'; unsigned long in = 0, cc = 0; int lvl = 0;
+    bool operator!=(const NhObs& o) const { return cls != o.cls || in != o.in || cc != o.cc || lvl != o.lvl; }
+};
+
+struct NhDriver {
+    Rng& r;
+    Dom D;
+    forest* F = nullptr;
+    std::map<node_handle, long> own, marks;
+    std::vector<NhObs> shadow;           // last observation per handle (index = handle)
+    struct Spec { int lvl; std::vector<node_handle> kids; };
+    std::vector<Spec> history;
+    explicit NhDriver(Rng& rr) : r(rr) {}
+
+    NhObs observe(node_handle h) const {
+        NhObs o;
+        o.in = F->getNodeInCount(h);
+        o.cc = F->verifCacheCount(h);
+        bool act = F->isActiveNode(h);
+        o.cls = act ? 'A' : (o.cc > 0 ? 'D' : 'F');
+        o.lvl = act ? F->getNodeLevel(h) : 0;
+        return o;
+    }
+    // the handles whose header changed since the last look (shadow updated); handles beyond getLastNode() are free
+    std::vector<node_handle> changed() {
+        std::vector<node_handle> out;
+        node_handle last = F->getLastNode();
+        if (size_t(last) + 1 > shadow.size()) shadow.resize(size_t(last) + 1);
+        for (node_handle h = 1; h < node_handle(shadow.size()); h++) {
+            NhObs o = (h <= last) ? observe(h) : NhObs();
+            if (o != shadow[size_t(h)]) { out.push_back(h); shadow[size_t(h)] = o; }
+        }
+        return out;
+    }
+    void noteTransition(const NhObs& before, const NhObs& after, bool touched) {
+        if (before.cls == 'A' && after.cls == 'F') STATS.hit(touched ? "nh.decide.deleteRecycle" : "nh.cascade.deleteRecycle");
+        if (before.cls == 'A' && after.cls == 'D') STATS.hit(touched ? "nh.decide.delete" : "nh.cascade.delete");
+        if (before.cls == 'D' && after.cls == 'F') STATS.hit("nh.decide.recycle");
+        if (after.cls == 'A' && after.in == 0) STATS.hit("nh.seen.unreachable");
+        if (before.cls == 'A' && before.in == 0 && after.in == 1) STATS.hit("nh.decide.revive");
+    }
+    // after one of the four calls on h: the header of h, then every other changed handle
+    void report(const char* op, node_handle h, const std::string& ret) {
+        NhObs before = size_t(h) < shadow.size() ? shadow[size_t(h)] : NhObs();
+        std::vector<NhObs> old = shadow;
+        std::vector<node_handle> ch = changed();
+        NhObs o = shadow[size_t(h)];
+        emit("nh %s %d -> %s%c %lu %lu", op, h, ret.c_str(), o.cls, o.in, o.cc);
+        noteTransition(before, o, true);
+        long n = 0;
+        for (node_handle c : ch) {
+            if (c == h) continue;
+            const NhObs& x = shadow[size_t(c)];
+            emit("nh also %d -> %c %lu %lu", c, x.cls, x.in, x.cc);
+            noteTransition(size_t(c) < old.size() ? old[size_t(c)] : NhObs(), x, false);
+            ++n;
+        }
+        emit("nh end -> %ld", n);
+        if (n > 0) STATS.hit("nh.cascade.calls");
+        STATS.hit(std::string("nh.") + op);
+    }
+    void link(node_handle h) { node_handle ret = F->linkNode(h); own[h]++; report("link", h, std::to_string(ret) + " "); }
+    void unlink(node_handle h) { F->unlinkNode(h); if (--own[h] == 0) own.erase(h); report("unlink", h, ""); }
+    void cache(node_handle h) { F->cacheNode(h); marks[h]++; report("cache", h, ""); }
+    void uncache(node_handle h) { F->uncacheNode(h); if (--marks[h] == 0) marks.erase(h); report("uncache", h, ""); }
+
+    bool isActive(node_handle h) const { return h > 0 && h <= F->getLastNode() && F->isActiveNode(h); }
+    std::vector<node_handle> activeBelow(int lvl) const {
+        std::vector<node_handle> v;
+        for (node_handle h = 1; h <= F->getLastNode(); h++) if (F->isActiveNode(h) && F->getNodeLevel(h) < lvl) v.push_back(h);
+        return v;
+    }
+    // createReducedNode is not translated: the children are linked (checked calls), the node is built, and the observed
+    // header of every handle it changed is ADOPTED by the acceptor
+    void mk(const Spec& sp) {
+        for (node_handle c : sp.kids) if (c > 0) link(c);
+        unpacked_node* un = unpacked_node::newWritable(F, sp.lvl, FULL_ONLY);
+        for (unsigned i = 0; i < sp.kids.size(); i++) un->setFull(i, sp.kids[i]);
+        node_handle lastBefore = F->getLastNode();
+        std::vector<char> wasActive(size_t(lastBefore) + 1, 0);
+        for (node_handle h = 1; h <= lastBefore; h++) wasActive[size_t(h)] = F->isActiveNode(h);
+        edge_value ev;
+        node_handle res = 0;
+        F->createReducedNode(un, ev, res, -1);
+        bool allSame = true, allZero = true;
+        for (node_handle c : sp.kids) { if (c != sp.kids[0]) allSame = false; if (c != 0) allZero = false; }
+        const char* kind = allZero ? "zero" : (allSame && res == sp.kids[0]) ? "red"
+            : (res > 0 && res <= lastBefore && wasActive[size_t(res)]) ? "hit" : "new";
+        if (!strcmp(kind, "red")) {
+            if (sp.kids[0] > 0) { if ((own[sp.kids[0]] -= long(sp.kids.size()) - 1) == 0) own.erase(sp.kids[0]); }
+        } else if (strcmp(kind, "zero")) {
+            for (node_handle c : sp.kids) if (c > 0) { if (--own[c] == 0) own.erase(c); }
+            own[res]++;
+            if (!strcmp(kind, "new")) history.push_back(sp);
+        }
+        for (node_handle h : changed()) {
+            const NhObs& o = shadow[size_t(h)];
+            emit("nh adopt %d %d %lu %lu", h, o.lvl, o.in, o.cc);
+        }
+        if (!strcmp(kind, "new")) {
+            std::string s = "nh kids " + std::to_string(res);
+            for (node_handle c : sp.kids) s += " " + std::to_string(c);
+            emits(s);
+        }
+        STATS.hit(std::string("nh.mk.") + kind);
+    }
+    Spec randomSpec(int maxTerm) {
+        Spec sp;
+        sp.lvl = r.range(1, int(D.K()));
+        unsigned n = unsigned(D.sizes[size_t(sp.lvl) - 1]);
+        std::vector<node_handle> below = activeBelow(sp.lvl);
+        for (unsigned i = 0; i < n; i++) {
+            if (!below.empty() && r.chance(3, 5)) sp.kids.push_back(r.pick(below));
+            else sp.kids.push_back(F->handleForValue(int(r.range(0, maxTerm))));
+        }
+        return sp;
+    }
+    bool usable(const Spec& sp) const {
+        for (node_handle c : sp.kids) if (c > 0 && !(isActive(c) && F->getNodeLevel(c) < sp.lvl)) return false;
+        return true;
+    }
+    void build(int maxTerm) {
+        if (!history.empty() && r.chance(1, 5)) { Spec sp = r.pick(history); if (usable(sp)) { mk(sp); return; } }
+        mk(randomSpec(maxTerm));
+    }
+    template <class M> node_handle pickKey(const M& m) { auto it = m.begin(); std::advance(it, r.below(unsigned(m.size()))); return it->first; }
+    void step(int maxTerm) {
+        unsigned x = r.below(100);
+        std::vector<node_handle> act = activeBelow(1 << 20);
+        if (x < 14 || act.empty()) build(maxTerm);
+        else if (x < 30) link(r.pick(act));
+        else if (x < 62) { if (!own.empty()) unlink(pickKey(own)); }
+        else if (x < 80) cache(r.pick(act));
+        else { if (!marks.empty()) uncache(pickKey(marks)); }
+    }
+};
+
+void nodeHeadersHistory(Rng& r, bool thorough, long which) {
+    NhDriver d(r);
+    unsigned K = unsigned(r.range(2, 4));
+    for (unsigned i = 0; i < K; i++) d.D.sizes.push_back(r.range(2, 3));
+    d.D.create();
+    Kind k; k.rel = false; k.rt = range_type::INTEGER; k.el = edge_labeling::MULTI_TERMINAL; k.rr = reduction_rule::FULLY_REDUCED;
+    Pol pol = Pol::random(r);
+    pol.del = (which % 2 == 0) ? 2 : int(r.below(2));      // pessimistic / (optimistic | never delete) alternate
+    d.F = makeForest(d.D.d, k, pol);
+    bool pess = d.F->getPolicies().isPessimistic();
+    emit("nh forest %d", pess ? 1 : 0);
+    STATS.hit(pess ? "nh.policy.pessimistic" : (d.F->getPolicies().isOptimistic() ? "nh.policy.optimistic" : "nh.policy.never"));
+    int maxTerm = r.range(1, 3);
+    for (int i = 0, n = r.range(6, 20); i < n; i++) d.build(maxTerm);
+    int steps = thorough ? r.range(100, 600) : r.range(60, 260);
+    for (int i = 0; i < steps; i++) d.step(maxTerm);
+    // release everything in random order: every node must die, every handle must be recycled
+    while (!d.own.empty() || !d.marks.empty()) {
+        bool u = d.marks.empty() || (!d.own.empty() && r.chance(1, 2));
+        if (u) d.unlink(d.pickKey(d.own)); else d.uncache(d.pickKey(d.marks));
+    }
+    long left = 0;
+    for (node_handle h = 1; h <= d.F->getLastNode(); h++) if (d.observe(h).cls != 'F') ++left;
+    emit("nh end -> %ld", left);           // nothing may be left (compared with 0 changed handles: the model agrees)
+    forest::destroy(d.F);
+    d.D.destroy();
+}
+
 int run(const Args& A) {
     const long nstreamCases = A.cases > 0 ? A.cases : (A.thorough() ? 500 : 50);
     const long ncaCases = A.thorough() ? 80 : 24;
-    const long ncases = 7 + nstreamCases + ncaCases;
+    const long nnhCases = A.thorough() ? 60 : 16;
+    const long ncases = 7 + nstreamCases + ncaCases + nnhCases;
+    libInit();
     for (long c = 0; c < ncases; c++) {
         if (!A.selected(c)) continue;
         Rng r(Rng::mix(A.seed, uint64_t(c)));
@@ -292,10 +475,12 @@ int run(const Args& A) {
         else if (c <= 5) binaryLevels(int(c - 1));
         else if (c == 6) helpers(r, A.thorough() ? 20000 : 2000);
         else if (c < 7 + nstreamCases) for (int i = 0; i < 200; i++) stream(r);
-        else counterHistory(r, A.thorough());
+        else if (c < 7 + nstreamCases + ncaCases) counterHistory(r, A.thorough());
+        else nodeHeadersHistory(r, A.thorough(), c - (7 + nstreamCases + ncaCases));
         endCase();
     }
+    libCleanup();
     return 0;
 }
-FamilyReg reg("gen", run, "translator validation: level arithmetic, hash_stream and counter_array, real functions vs generated Lean");
+FamilyReg reg("gen", run, "translator validation: level arithmetic, hash_stream, counter_array and node_headers, real functions vs generated Lean");
 }  // namespace
